@@ -1,13 +1,20 @@
 (** C12 — an environment value can only satisfy an option, never restrict the command line.
-    PARTIAL. Proved for every table, option, command line and flag: giving more options an
-    environment value never turns a success of the single-option matcher into a failure and never
-    changes what it consumes or records (the fallback only fires when the scan found nothing); a
-    required single option absent from the line is satisfied by its environment value; in an option
-    group, an option is excluded only after a match that recorded nothing (the D4 repair), so an
-    occurrence on the line is consumed however many times it is written. NOT yet proved: the forward
-    simulation through the group loop and State.apply for arbitrary specs — covered on every run by
+    PROVED on the model for command lines that read cleanly (decidable, [View.view]; PC10.v) and
+    options tables with no option called "-" or "=":
+    [C12_env_only_enlarges]: for every well-formed automaton (specs with "--" included), if the
+    command line is accepted with a set of environment-backed options it is accepted with any larger
+    set; [C12_every_run_survives]: indeed every accepting run remains one, with the same bindings;
+    [C12_written_values_kept] (automata without a spec-level "--"): the values recorded for every
+    option are the same in both — those written on the command line ([PC02.C02_written_values_exactly]).
+    [C12_group_is_greedy]: on a cleanly read line the options group takes, one at a time, the first
+    listed option that has an occurrence in the current run until none has, whatever the
+    environment: an option written any number of times is consumed every time (the D4 repair, for
+    all inputs), and [C12_group_monotone]: whatever the group does without an environment value it
+    does with it. [C12_required_satisfied]: a required single option absent from the line is
+    satisfied by its environment value. The single-option and exclusion lemmas are kept.
+    NOT covered by the theorems: lines with an unreadable or Q1 token; covered on every run by
     comparing the implementation with itself under every subset of set variables. *)
-From MowCli Require Import Base Matchers ApplyProofs TermProofs.
+From MowCli Require Import Base Nfa Matchers Apply View ApplyProofs TermProofs ViewProofs AccountProofs GroupProofs EnvProofs.
 
 Theorem C12_single_option_monotone :
   forall (D D' : optinfo) o args ro r,
@@ -30,6 +37,49 @@ Theorem C12_group_excludes_only_after_empty_match :
     (rem = args /\ bs = [] /\ exists o, In o opts /\ mem_nat o excluded = false /\ ex' = o :: excluded).
 Proof. exact try_opts_progress. Qed.
 
+(** the options group on a cleanly read command line: greedy, independent of the environment *)
+Theorem C12_group_is_greedy :
+  forall D, oi_lookup D s_dd = None -> oi_lookup D [c_dash; c_eq] = None ->
+  forall opts a u m ro b, Reads D a u ->
+    m_group D opts a false = Some (m, ro, b) -> ro = false /\ Greedy D opts a b m.
+Proof. exact m_group_greedy. Qed.
+
+Theorem C12_greedy_ignores_environment :
+  forall D D', same_names D D' -> forall opts a b m, Greedy D opts a b m -> Greedy D' opts a b m.
+Proof. exact greedy_ext. Qed.
+
+Theorem C12_group_monotone :
+  forall D D', more_env D D' -> oi_lookup D s_dd = None -> oi_lookup D [c_dash; c_eq] = None ->
+  forall opts a u r, Reads D a u ->
+    m_group D opts a false = Some r -> m_group D' opts a false = Some r.
+Proof. exact m_group_mono. Qed.
+
+Theorem C12_every_run_survives :
+  forall D D', more_env D D' -> oi_lookup D s_dd = None -> oi_lookup D [c_dash; c_eq] = None ->
+  forall g s a ro bs, Acc D g s a ro bs -> forall u, View D a ro u -> Acc D' g s a ro bs.
+Proof. exact acc_mono. Qed.
+
+Theorem C12_env_only_enlarges :
+  forall D D', more_env D D' -> oi_lookup D s_dd = None -> oi_lookup D [c_dash; c_eq] = None ->
+  forall g start a u bs,
+    wf_graph g -> start < nstates g -> Reads D a u ->
+    fsm_apply D g start a = AOk bs -> exists bs', fsm_apply D' g start a = AOk bs'.
+Proof. exact env_only_enlarges. Qed.
+
+Theorem C12_written_values_kept :
+  forall D D', more_env D D' -> oi_lookup D s_dd = None -> oi_lookup D [c_dash; c_eq] = None ->
+  forall g start a u bs bs',
+    (forall s t, ~ In (LDD, t) (edges g s)) -> Reads D a u ->
+    fsm_apply D g start a = AOk bs -> fsm_apply D' g start a = AOk bs' ->
+    forall o, b_occs o bs' = b_occs o bs.
+Proof. exact env_keeps_written_values. Qed.
+
+Print Assumptions C12_group_is_greedy.
+Print Assumptions C12_greedy_ignores_environment.
+Print Assumptions C12_group_monotone.
+Print Assumptions C12_every_run_survives.
+Print Assumptions C12_env_only_enlarges.
+Print Assumptions C12_written_values_kept.
 Print Assumptions C12_single_option_monotone.
 Print Assumptions C12_required_satisfied.
 Print Assumptions C12_group_excludes_only_after_empty_match.
@@ -40,3 +90,20 @@ Example C12_repeat_ok :
   m_group D [0] [lit "-e"; lit "a"; lit "-e"; lit "b"] false
   = Some ([], false, [(KO 0, lit "a"); (KO 0, lit "b")]).
 Proof. vm_compute. reflexivity. Qed.
+
+(** non-vacuity of [more_env] and of the clean reading: the same table with and without E set; the
+    group consumes both occurrences either way, and the required option alone is satisfied by E *)
+Example C12_nonvacuous :
+  let mk (env : bool) := mkOI (fun n => if str_eqb n (lit "-e") then Some 0 else None) (fun _ => false) (fun _ => env) in
+  let a := [lit "-e"; lit "a"; lit "-e"; lit "b"] in
+  (view (mk false) a, m_group (mk false) [0] a false, m_group (mk true) [0] a false,
+   m_opt (mk false) 0 [] false, m_opt (mk true) 0 [] false)
+  = (Some [VO 0 (lit "a"); VO 0 (lit "b")],
+     Some ([], false, [(KO 0, lit "a"); (KO 0, lit "b")]), Some ([], false, [(KO 0, lit "a"); (KO 0, lit "b")]),
+     None, Some ([], false, [])).
+Proof. vm_compute. reflexivity. Qed.
+
+Example C12_more_env_example :
+  let mk (env : bool) := mkOI (fun n => if str_eqb n (lit "-e") then Some 0 else None) (fun _ => false) (fun _ => env) in
+  more_env (mk false) (mk true).
+Proof. repeat split; auto. Qed.
